@@ -1023,6 +1023,13 @@ func Now() time.Time {
 	return t.In(time.Local)
 }
 
+// PeekClock returns the value the next Now() will return, without advancing.
+func PeekClock() (time.Time, bool) {
+	clockMu.Lock()
+	defer clockMu.Unlock()
+	return clockNow, clockSet
+}
+
 func Since(t time.Time) time.Duration { return Now().Sub(t) }
 func Until(t time.Time) time.Duration { return t.Sub(Now()) }
 
